@@ -196,10 +196,10 @@ PROPS = {
         technique="path-sensitive typestate (linear resources + owned collections) over MIR",
     ),
     "C12": dict(
-        rules=[R("compiler", "rule_span"), R("vm", "rule_ip_sync")],
+        rules=[R("compiler", "rule_span"), R("vm", "rule_ip_sync"), R("vm", "rule_frame_save_restore")],
         clause="The compiler's span stack is balanced on every non-error path of every Compiler method, so no construct "
                "can shift the source positions of everything compiled after it (R-SPAN); the position the VM records for diagnostics is "
-               "refreshed on every entry of the interpreter loop and after every instruction (R-IP-SYNC). Not decided: which "
+               "refreshed on every entry of the interpreter loop and after every instruction (R-IP-SYNC), and put back by pop_frame itself for whoever pops a frame (R-FRAME-SAVE-RESTORE). Not decided: which "
                "line a fault maps to, trace order, excerpt rendering.",
         technique="path-sensitive typestate (counter) over MIR with discriminant correlation",
     ),
